@@ -11,7 +11,7 @@ ID = "C11"
 LEVEL = "exploration"
 SHARDS = {"quick": 16, "thorough": 16}
 RULE = (
-    "Hypothesis builds Memento objects: aware/naive time, function reference from a harness alphabet (named/default cluster, chained partials), "
+    "Hypothesis builds Memento objects: aware/naive time, function reference from a harness alphabet (named/default cluster, chained partials) or an external reference to a function that cannot be resolved in this process (with parameter names, positional/keyword/partial arguments), "
     "args/kwargs/context args from the supported argument domain (NaN, +-inf, -0.0, big ints, non-ASCII, dates/datetimes incl. years < 1000 and zones, "
     "nested lists/dicts, nested function references with partial args), 0-5 invocations, 0-3 resource handles of arbitrary strings, dependency sets, "
     "runtime 0..1e6 s at microsecond resolution, every ResultType, runner dicts, correlation ids, content keys with arbitrary printable keys incl. '#' and "
@@ -44,6 +44,19 @@ TS_RE = re.compile(r"^\d{4}-\d\d-\d\dT\d\d:\d\d:\d\d(\.\d{6})?(Z|[+-]\d\d:\d\d(:
 
 def _build_rwa(d):
     from twosigma.memento.reference import FunctionReferenceWithArguments
+    if d["fn"]["name"] == "ext":
+        # a function that cannot be resolved in this process (another language / a version that is gone): an external
+        # reference that knows its parameter names, possibly with partial arguments
+        from twosigma.memento.reference import FunctionReference
+        steps = d["fn"].get("steps") or [[[], {}]]
+        ref = FunctionReference.from_qualified_name(
+            d["fn"]["qn"], partial_args=tuple(argspec.build_arg(x) for x in steps[0][0]) or None,
+            partial_kwargs={k: argspec.build_arg(v) for k, v in steps[0][1].items()} or None,
+            parameter_names=list(d["fn"]["params"]), external=True)
+        args = tuple(argspec.build_arg(x) for x in d.get("args", []))
+        kwargs = {k: argspec.build_arg(v) for k, v in d.get("kwargs", {}).items()}
+        ctx = None if d.get("ctx") is None else {k: argspec.build_arg(v) for k, v in d["ctx"].items()}
+        return FunctionReferenceWithArguments(ref, args, kwargs, ctx)
     f = argspec.build_arg({"t": "fn", "name": d["fn"]["name"], "steps": d["fn"].get("steps", [])})
     args = tuple(argspec.build_arg(x) for x in d.get("args", []))
     kwargs = {k: argspec.build_arg(v) for k, v in d.get("kwargs", {}).items()}
@@ -313,6 +326,8 @@ def _finish(out, case):
         labs.append("hash-in-content-key")
     if len(case["invocations"]) >= 2:
         labs.append("multi-invocation")
+    if '"name":"ext"' in text:
+        labs.append("external-reference-with-args")
     out.labels = labs + ["rt:" + case["result_type"]]
     out.nontrivial = bool(labs)
     out.nt_key = [labs, re.sub(r'"v":"[^"]*"', '"v":_', text)[:4000]]
@@ -341,7 +356,28 @@ def strategy():
     printable = st.text(alphabet=st.characters(min_codepoint=32, max_codepoint=126), max_size=12)
 
     @st.composite
+    def ext_call(draw):
+        qn = draw(st.sampled_from(["c::gone.module:fn#3", "other::pkg.mod:compute#abc123", "vlib.afuncs:g1#0-old", "c::vlib.afuncs:nosuch#1",
+                                   "pkg.sub.mod:Outer.method#v:2"]))
+        params = ["p", "q", "r"]
+        steps = []
+        used = 0
+        kind = draw(st.integers(0, 3))
+        if kind == 1:
+            steps = [[[draw(A.simple)], {}]]
+            used = 1
+        elif kind == 2:
+            steps = [[[], {"r": draw(A.simple)}]]
+        rest = [x for x in params[used:] if not (steps and x in steps[0][1])]
+        npos = draw(st.integers(0, len(rest))) if not (steps and steps[0][1]) else draw(st.integers(0, min(2, len(rest))))
+        args = [draw(A.simple) for _ in range(npos)]
+        kwargs = {k: draw(A.simple) for k in draw(st.lists(st.sampled_from(rest[npos:]), max_size=2, unique=True))} if rest[npos:] else {}
+        return {"fn": {"name": "ext", "qn": qn, "params": params, "steps": steps}, "args": args, "kwargs": kwargs, "ctx": draw(A.ctx)}
+
+    @st.composite
     def call(draw):
+        if draw(st.integers(0, 5)) == 0:
+            return draw(ext_call())
         name = draw(st.sampled_from(["g1", "g2", "g3", "g5", "g6", "h1", "h2"]))
         params = {"g1": ["a"], "g2": ["a", "b"], "g3": ["a", "b", "c"], "g5": ["a", "b"], "g6": ["a", "b", "c", "d", "e"],
                   "h1": ["a", "b", "c"], "h2": ["x", "y"]}[name]
